@@ -340,7 +340,7 @@ func mkAlphabetA() {
 	}
 }
 
-var depthA = 4
+var depthA = 5
 
 func runA(hist []string) core.Outcome {
 	p := txpool.NewTxPool()
@@ -554,7 +554,7 @@ func main() {
 	mkAlphabetA()
 	bound := 2
 	if core.Thorough() {
-		depthA = 5
+		depthA = 6
 		bound = 3
 	}
 	if core.Opt.Replay != "" {
@@ -585,7 +585,7 @@ func main() {
 	r := core.NewResult(prop, "model_checking")
 	r.Rule = "Part A: BFS over operation sequences (AddTx/AddTxs/GetTxs/DelTxs over t1,t2,t3,u1,u2,box(u1,u2),box(u1,t3); capacity 2; expirations 10/20; selection times 5/15/25, sizes 1/2/9) on the real TxPool against a set model; state = pool dump + model. Part B: 8 thread scenarios under the controlled scheduler, all interleavings up to the preemption bound, points at the pool mutex and at every read/write of txs/hashIndexMap/cap; linearizability by brute force; distinct outcome = (scenario, results, final pool)"
 	r.Assume = []string{"order of GetTxs results is not asserted", "AddTx refusing a transaction is never a violation (the statement does not demand acceptance), except AddTxs accepting fewer than the non-conflicting ones, which the count cannot attribute"}
-	core.BFS(r, core.BFSConfig{Prop: prop, Run: runA, MaxDepth: depthA, Workers: core.Opt.Workers})
+	core.BFS(r, core.BFSConfig{Prop: prop, Run: core.SafeRun(prop, runA), MaxDepth: depthA, Workers: core.Opt.Workers})
 	runB(r, bound)
 	_ = common.Hash{}
 	core.Finish(r)
